@@ -505,7 +505,9 @@ EXH_THOROUGH = EXH_QUICK + [
     (3, 5, 1, 2, "EUCLIDEAN", [("raw", 290), ("raw", 285)], 4),
     (4, 4, 1, 1, "EUCLIDEAN", [("int", 1), ("half", 1), ("int", 2), ("sqrtq", 2), ("raw", 145), ("raw", 240)], 4),
     (5, 5, 1, 1, "EUCLIDEAN", [("half", 1), ("int", 2), ("raw", 145)], 3),
-    (4, 4, 1, 1, "MANHATTAN", [("int", 1), ("int", 2), ("half", 2)], 4),
+    (4, 4, 1, 1, "MANHATTAN", [("int", 1), ("int", 2), ("half", 1)], 4),
+    (5, 5, 1, 1, "EUCLIDEAN", [("raw", 240), ("sqrtq", 2)], 4),
+    (6, 6, 1, 1, "EUCLIDEAN", [("raw", 240), ("raw", 145)], 3),
     (4, 5, 1, 3, "EUCLIDEAN", [("raw", 430), ("raw", 330)], 3),
     (4, 4, 1, 2, "MANHATTAN", [("int", 3), ("half", 3), ("int", 4)], 4),
 ]
@@ -653,12 +655,18 @@ def window_stream(r):
     job_cases = [window_case(h, w, ux, uy, 1.0, metric, kind, k, [0], [h], [w]) for (h, w, ux, uy, metric, kind, k, nt) in jobs]
     drv = Driver()
     reps = drv.ask([pad_request(c) for c in cases + job_cases])
-    pads = []
+    pads, bad_pad = [], 0
     for c, rep in zip(cases + job_cases, reps):
         try:
             p = tuple(int(x) for x in rep.split(","))
+            if len(p) != 2 or min(p) < 0:
+                raise ValueError(rep)
         except ValueError:
-            r.disagree("pad", c, "n/a", f"driver reply {rep!r}")
+            # the generated pad is unusable (translator gave up on the halo expressions): the proof side is broken anyway;
+            # simulate with the documented halo so that the api sample shows whether the real code still agrees with it
+            if bad_pad == 0:
+                r.disagree("pad", c, "n/a", f"generated pad evaluates to {rep!r}")
+            bad_pad += 1
             p = (int(c["max_distance"] / c["sy"] + 0.5), int(c["max_distance"] / c["sx"] + 0.5))
         pads.append(p)
     case_pads, job_pads = pads[:len(cases)], pads[len(cases):]
